@@ -98,23 +98,40 @@ def polar_body(ctx, p):
 @st.composite
 def cart_cases(draw):
     nr = draw(st.one_of(st.integers(6, 16), st.integers(17, 70)))       # the default is 40; every radial resolution must construct
-    return {"ri": draw(st.one_of(st.floats(0.05, 0.9), st.sampled_from([0.2, 0.5]))), "nr": nr, "dim": draw(st.integers(8, 64)), "mask": draw(st.booleans()),
+    dim = draw(st.integers(8, 64))
+    # the documented second route to a Cartesian rendering: set_pctr(basis, ncp, ncmar) + pol2car, with a margin of ncmar
+    # pixels around the pupil (set_pctr's default margin is 2; make_kl uses 0)
+    route = draw(st.sampled_from(["make_kl", "make_kl", "set_pctr"]))
+    ncmar = draw(st.sampled_from([None, 0, 1, 2, 3, 5])) if route == "set_pctr" else 0
+    if route == "set_pctr":
+        dim = max(dim, 2 * (2 if ncmar is None else ncmar) + 8)
+    return {"ri": draw(st.one_of(st.floats(0.05, 0.9), st.sampled_from([0.2, 0.5]))), "nr": nr, "dim": dim, "mask": draw(st.booleans()),
+            "mask_as": draw(st.sampled_from(["bool", "bool", "numpy_bool", "int"])), "route": route, "ncmar": ncmar,
             "nmax": draw(st.integers(2, max(2, min(30, (nr * int(2 * math.pi * nr)) // 15)))), "outerscale": draw(st.sampled_from([None, None, 4.0]))}
 
 
 def cart_body(ctx, p):
     kl = KL()
     ri, nr, dim, nmax, mask = p["ri"], p["nr"], p["dim"], p["nmax"], p["mask"]
-    ctx.case(p, nontrivial=nmax >= 6 and not (0.19 <= ri <= 0.21), classes=["masked" if mask else "unmasked", "dim_odd" if dim % 2 else "dim_even"])
-    modes, var, pupil, base = quiet(kl.make_kl, nmax, dim, ri=ri, nr=nr, mask=mask)
-    if p.get("outerscale") is not None:
-        m2, v2, p2, _ = quiet(kl.make_kl, nmax, dim, ri=ri, nr=nr, mask=mask, stf="kolmogorov", outerscale=p["outerscale"])
+    route, ncmar = p.get("route", "make_kl"), p.get("ncmar", 0)
+    mask_arg = {"bool": bool(mask), "numpy_bool": np.bool_(mask), "int": int(mask)}[p.get("mask_as", "bool")]       # "mask : bool"
+    ctx.case(p, nontrivial=nmax >= 6 and not (0.19 <= ri <= 0.21), classes=["masked" if mask else "unmasked", "dim_odd" if dim % 2 else "dim_even", "route_" + route, "margin_%s" % ncmar, "mask_as_" + p.get("mask_as", "bool")])
+    if route == "set_pctr":
+        base = quiet(kl.gkl_basis, ri, nr, int(2 * math.pi * nr), nmax)
+        geom = quiet(kl.set_pctr, base, dim, ncmar) if ncmar is not None else quiet(kl.set_pctr, base, ncp=dim)
+        modes = np.stack([quiet(kl.pol2car, geom, quiet(kl.gkl_sfi, base, i), mask=mask_arg) for i in range(nmax)])
+        var, pupil = base["evals"], np.asarray(geom["ap"])
+        ncmar = 2 if ncmar is None else ncmar
+    else:
+        modes, var, pupil, base = quiet(kl.make_kl, nmax, dim, ri=ri, nr=nr, mask=mask_arg)
+    if route == "make_kl" and p.get("outerscale") is not None:
+        m2, v2, p2, _ = quiet(kl.make_kl, nmax, dim, ri=ri, nr=nr, mask=mask_arg, stf="kolmogorov", outerscale=p["outerscale"])
         ctx.equal(m2, modes, "make_kl(stf='kolmogorov', outerscale=...) differs from make_kl without an outer scale")
         ctx.equal(np.asarray(v2), np.asarray(var), "make_kl variances change when an outer scale is passed with Kolmogorov statistics")
     ctx.require(modes.shape == (nmax, dim, dim) and pupil.shape == (dim, dim), "make_kl shapes %s %s" % (modes.shape, pupil.shape))
     ctx.require(bool(np.all(np.isfinite(modes))), "make_kl modes not finite")
     ctx.equal(np.asarray(var), np.asarray(base["evals"]), "make_kl variances == polar basis variances")
-    c = (np.arange(dim) - (dim - 1) / 2.0) / (dim / 2.0)
+    c = (np.arange(dim) - (dim - 1) / 2.0) / ((dim - 2 * ncmar) / 2.0)      # the unit disc spans the array less the margin
     Xc, Yc = np.meshgrid(c, c)                       # x along columns, y along rows
     r2 = Xc ** 2 + Yc ** 2
     edge = (np.abs(r2 - ri ** 2) < 1e-12) | (np.abs(r2 - 1) < 1e-12)
